@@ -914,6 +914,15 @@ impl<E: Effect> Executor<E> {
         }
     }
 
+    /// Re-queue a process only if it is parked in a select (an await answer, even an empty one,
+    /// lets the select start evaluating its sources). A process parked for any other reason - in
+    /// particular one waiting for the pid of a process it is spawning - is left alone.
+    pub fn wake_selecting(&mut self, id: ProcessId) {
+        if self.selecting.remove(&id) {
+            self.queue.push_back(id);
+        }
+    }
+
     pub fn add_to_queue(&mut self, process_id: ProcessId) {
         self.queue.push_back(process_id);
     }
